@@ -148,10 +148,10 @@ PROBE_MAX = 300
 
 
 def _probe(d, k):
-    """a plain dict looked up with a symbolic int: fork over 'k equals this key' for every int key (and every key that is
+    """a plain dict (or set) looked up with a symbolic int: fork over 'k equals this key' for every int key (and every key that is
     itself a pinned symbolic int) plus 'none of them', instead of hashing k (which would have to pick values for it).
     -> the matching key object | _ABSENT | None (not applicable: let the ordinary operation run)"""
-    if type(d) is not dict or not isinstance(k, SymInt) or isinstance(k, SymBool):
+    if type(d) not in (dict, set, frozenset) or not isinstance(k, SymInt) or isinstance(k, SymBool):
         return None
     keys = []
     for x in d:
